@@ -134,7 +134,7 @@ def programs(tier):
             for s in ('GA', 'GB', 'GC', 'GD', 'R', 'G2', 'XG'):
                 yield (c0, s), 2, rev, None
         # two waiters suspended on the SAME event (wait by name is satisfied by the first event of that name), one impatient
-        for tp in ((1, 9), (9, 1), (0, 9), (2, 20)):
+        for tp in ((1, 9), (9, 1), (0, 9), (2, 20), (1, -1), (-1, 1), (0, -1), (2, -1)):       # -1: no time-out at all
             for s in ('S3', 'S4', 'GC', 'GA'):
                 yield ('waitn', s), 2, rev, tp
 
